@@ -1,5 +1,6 @@
 """C04 — read and write scopes are enforced on every connection"""
 from hubcommon import HubMode
+from relaycommon import RelayMode
 
 RULE = ("hub mode (see C03) with every subset of {read, write} on every participant; failures reported here: a message from a "
         "non-writer (or non-member) reached any queue; a frame was written for a non-reader. non-trivial = at least one delivery and "
@@ -12,4 +13,4 @@ THEOREMS = [(f"Hub.{n}", P) for n in ["nonwriter_silent", "sent_grows_only_by_wr
 
 
 def modes(tier):
-    return [HubMode("C04")]
+    return [HubMode("C04"), RelayMode("C04")]
